@@ -21,7 +21,7 @@ package serveruser
 //@   property C07
 //@   mode int
 //@   noframe
-//@   preserves PacketUnderlay.*, StreamUnderlay.*
+//@   preserves PacketUnderlay.*, StreamUnderlay.*, ghost(wr), ghost(dsent)
 //@   requires afterAttempt == nil
 //@   volatile Pointer_sync_atomic.Pointer[github.com_enfein_mieru_v3_pkg_protocol_serveruser.state].v, .v
 //@   ensures err == nil ==> result.block != nil && result.generation != nil
@@ -33,7 +33,7 @@ package serveruser
 //@   property C05 C07
 //@   mode int
 //@   noframe
-//@   preserves PacketUnderlay.*, StreamUnderlay.*
+//@   preserves PacketUnderlay.*, StreamUnderlay.*, ghost(wr), ghost(dsent)
 //@   requires r != nil
 //@   ensures err == nil ==> b != nil
 //@
